@@ -76,6 +76,30 @@ func genText(rt *rapid.T, allowPercent, allowDot bool) string {
 			return s
 		}
 	}
+	if hx.Chance(rt, 10, "escapelike") {
+		// text that LOOKS like an escape but is literal characters: a backslash followed by
+		// uXXXX for the code points JSON/HTML encoders treat specially, HTML entities, and the
+		// raw characters themselves - surrounded by a little plain text
+		var frag string
+		switch hx.Uniform(rt, 3, "ekind") {
+		case 0:
+			cps := []int{0x3c, 0x3e, 0x26, 0x22, 0x5c, 0x2f, 0x0a, 0x2028, 0x2029, 0x00, 0x41, 0xd800}
+			h := fmt.Sprintf("%04x", cps[hx.Uniform(rt, len(cps), "cp")])
+			if hx.Chance(rt, 30, "upper") {
+				h = strings.ToUpper(h)
+			}
+			frag = `\u` + h
+		case 1:
+			frag = []string{"&lt;", "&gt;", "&amp;", "&quot;", "&#39;", "&", "<", ">"}[hx.Uniform(rt, 8, "ent")]
+		default:
+			frag = []string{`\n`, `\t`, `\"`, `\\`, `\/`, `\b`, `\x41`, `\u{41}`}[hx.Uniform(rt, 8, "esc")]
+		}
+		pre := []string{"", "a", "x ", "\\"}[hx.Uniform(rt, 4, "pre")]
+		post := []string{"", "b", " y", "\\"}[hx.Uniform(rt, 4, "post")]
+		if s := pre + frag + post; (allowPercent || !strings.Contains(s, "%")) && (allowDot || !strings.Contains(s, ".")) {
+			return s
+		}
+	}
 	if hx.Chance(rt, 25, "plaintext") {
 		n := rapid.IntRange(0, 6).Draw(rt, "len")
 		var b strings.Builder
@@ -555,21 +579,28 @@ func genDirPath(rt *rapid.T) string {
 // GenLoad draws a directory of translation files with globally disjoint keys.
 func GenLoad(rt *rapid.T) Case {
 	var nfiles int
+	dense, per := false, 1
 	switch w := hx.Uniform(rt, 100, "filesclass"); {
 	case w < 10:
 		nfiles = 1
 	case w < 20:
 		nfiles = 2
-	case w < 65:
+	case w < 60:
 		nfiles = 3 + hx.Uniform(rt, 6, "n")
+	case w < 67:
+		// dense: a moderate number of files with many keys each (hundreds to thousands of keys in
+		// total: growth steps of whatever table holds them are crossed while consumers overlap)
+		dense = true
+		nfiles = 4 + hx.Uniform(rt, 40, "n")
+		per = 20 + hx.Uniform(rt, 180, "per")
 	case w < 97 || !hx.Thorough():
 		nfiles = 9 + hx.Uniform(rt, 32, "n")
 	default:
 		nfiles = 100 + hx.Uniform(rt, 1400, "n")
 	}
-	big := nfiles > 40
+	big := nfiles > 40 || dense
 	// keys: every file gets at least one
-	nkeys := nfiles
+	nkeys := nfiles * per
 	if !big {
 		nkeys += rapid.IntRange(0, 2*nfiles).Draw(rt, "morekeys")
 	}
@@ -585,6 +616,8 @@ func GenLoad(rt *rapid.T) Case {
 	for i := range owner {
 		if i < nfiles {
 			owner[i] = i
+		} else if dense {
+			owner[i] = i % nfiles
 		} else {
 			owner[i] = hx.Uniform(rt, nfiles, "owner")
 		}
